@@ -215,9 +215,10 @@ class _Display(object):
 def t_block_bytes_bounded(E, mode):
     """get_memory(addr, n) = [get_memory(addr+i, 1)] and set_memory likewise, real ByteMatrix, sampled."""
     import copy
-    vm = 65536 if modes_mod._MODE_INFO[mode]['interleave_times'] * modes_mod._MODE_INFO[mode]['bank_size'] <= 65536 else 262144
+    # video memory for (at most) two pages, so that the display stand-in has every page the mapper knows
+    vm = 2 * modes_mod._MODE_INFO[mode]['interleave_times'] * modes_mod._MODE_INFO[mode]['bank_size']
     m, g = _mapper(E, mode, vm)
-    pages = min(g['pages'], 2)
+    pages = g['pages']
     salt = E.int('salt', 0, 255)
     bpp = modes_mod._MODE_INFO[mode]['bitsperpixel']
     disp = _Display([_Page(g['H'], g['W'], lambda y, x, p=p: (x * 7 + y * 13 + p * 5 + salt) % (1 << bpp)) for p in range(pages)])
